@@ -577,7 +577,7 @@ num_batches(const World& w, const RunCfg& r)
 }
 
 std::vector<RunCfg>
-run_cfgs(const json& c)
+run_cfgs(const json& c, bool single_tof_bin_template)
 {
   std::vector<RunCfg> v;
   for (const json& r : c["runs"])
@@ -593,6 +593,11 @@ run_cfgs(const json& c)
         x.ntof = (x.ntof == 0) ? 1 : -1;
       x.to_file = r[2].get<long>() != 0;
       x.tof_via_parser = r[3].get<long>() != 0;
+      if (x.to_file && single_tof_bin_template && exclusions_on())
+        { // finding C14-F5: the Interfile header LmToProjData writes for a TOF template mashed to ONE TOF bin cannot be read back
+          x.to_file = false;
+          stats().excluded_known++;
+        }
       v.push_back(x);
     }
   if (v.empty())
@@ -875,7 +880,7 @@ check(const json& c)
     }
   const int mode = c["mode"].get<int>();
   const bool store_prompts = c["store_prompts"].get<bool>(), store_delayeds = c["store_delayeds"].get<bool>() || !store_prompts;
-  const std::vector<RunCfg> cfgs = run_cfgs(c);
+  const std::vector<RunCfg> cfgs = run_cfgs(c, w.tmpl->is_tof_data() && w.tmpl->get_num_tof_poss() == 1);
   const std::vector<std::pair<long, long>> frames = frames_from_case(c);
   // the source handed to LmToProjData reports either the uncompressed geometry or the template: only its scanner matters
   shared_ptr<ProjDataInfo> lm_pdi = w.tmpl;
@@ -1210,7 +1215,7 @@ nontrivial(const json& c)
     {
       World w = make_world(c);
       int mb = 1;
-      for (const RunCfg& r : run_cfgs(c))
+      for (const RunCfg& r : run_cfgs(c, false))
         mb = std::max(mb, num_batches(w, r));
       if (mb < 2)
         return false;
